@@ -7,8 +7,20 @@
     [sized fam] says that every flow has at most 2^64-1 steps.  It is weaker
     than the property's own bound (8 steps per flow) and holds for every Go
     slice (len < 2^63); without it the "flow changed" test
-    [StepIndex == MaxUint] would be ambiguous in the model. *)
-From CSS Require Import Lib.Base Model.Interp Proofs.Interp.
+    [StepIndex == MaxUint] would be ambiguous in the model.
+
+    The last group of theorems (C09_step_actions_owned, C09_run_keeps_family,
+    C09_log_entries_stable) is about Model/InterpHeap.v, where the action
+    list of a static step is not a value but a WINDOW into an array of the
+    flow definition (windows may overlap and may have spare capacity that is
+    another step's content) and the log keeps the slices the steps returned:
+    running a flow writes no array of the definition, whatever the growth
+    policy of [append], so the theorems above — stated for the family as a
+    value — speak about the family AS DEFINED BEFORE the run, and a log entry
+    never changes after it was recorded.  No no-aliasing assumption is
+    needed; [wf_family] only says that the windows point into existing
+    arrays. *)
+From CSS Require Import Lib.Base Model.Interp Proofs.Interp Model.InterpHeap Proofs.InterpHeap.
 
 (** Acyclic (stratified) families: [Finish] — any number of NextStep calls from
     [fuel_bound fam] = 1 + total number of steps on — terminates and leaves
@@ -229,3 +241,86 @@ Example C09_demo_machine :
              Ok (st, fst (exec_flow demo 0 (mkCore None [] (Some true))), true)
              /\ (ms_flow st, ms_step st) = (1, 2).
 Proof. eexists. split; vm_compute; reflexivity. Qed.
+
+(** * Who owns the memory of an action list (Model/InterpHeap.v) *)
+
+(** One call of [Step.Actions] on heap [h] — for a static step its own window,
+    for a conditional the window of the chosen branch, for a merged step a
+    list built by [append] from nil, for the others a fresh literal — only
+    EXTENDS the heap (every array that existed before the call is untouched,
+    for every growth policy [grow] of [append]), so the step still reads the
+    same afterwards, and the slice returned reads as the action list of the
+    step as defined ([resolve h s]) in the value-level model. *)
+Theorem C09_step_actions_owned : forall grow s c h,
+  wf_step (length h) s = true ->
+  match actions_h grow s c h with
+  | Ok (sl, h') =>
+      (exists extra, h' = h ++ extra) /\ firstn (length h) h' = h /\
+      resolve h' s = resolve h s /\
+      actions_of (resolve h s) c = Ok (read h' sl)
+  | Panic => actions_of (resolve h s) c = Panic
+  | _ => False
+  end.
+Proof. exact step_actions_owned. Qed.
+Print Assumptions C09_step_actions_owned.
+
+(** Running a flow does not modify the family: any number of NextStep calls
+    on a family laid out in heap [h] (any layout: shared arrays, overlapping
+    windows, spare capacity) returns normally, the final heap is [h] plus new
+    arrays, the family reads the same after the run as before it, and state
+    and log — the logged slices read through the FINAL heap — are those of
+    the value-level machine [run] on the family as defined before the run
+    (to which all theorems above apply). *)
+Theorem C09_run_keeps_family : forall grow fam h root c fuel,
+  wf_family (length h) fam = true -> sized (resolve_family h fam) ->
+  exists st h' log d,
+    run_h grow fuel fam (init_state root c) h [] = Ok (st, h', log, d) /\
+    (exists extra, h' = h ++ extra) /\ firstn (length h) h' = h /\
+    resolve_family h' fam = resolve_family h fam /\
+    run fuel (resolve_family h fam) (init_state root c) [] = Ok (st, map (read_entry h') log, d).
+Proof. exact run_keeps_family. Qed.
+Print Assumptions C09_run_keeps_family.
+
+(** The log records what was executed and keeps recording it: continuing a
+    run from any point only appends entries, and the entries recorded before
+    read the same through the later heap as when they were recorded. *)
+Theorem C09_log_entries_stable : forall grow fam fuel st h log st' h' log' d,
+  wf_family (length h) fam = true -> wf_log h log ->
+  run_h grow fuel fam st h log = Ok (st', h', log', d) ->
+  exists new, log' = log ++ new /\ map (read_entry h') log = map (read_entry h) log /\
+              firstn (length h) h' = h.
+Proof. exact log_entries_stable. Qed.
+Print Assumptions C09_log_entries_stable.
+
+(** The hypotheses are satisfiable by a layout in which aliasing would show:
+    one array [a; b; c], a prologue step that is the window [a] with spare
+    capacity 2, merged with a literal [x], and a second step that is the
+    whole array.  The run logs [a; x] (in new memory: the logged slice is not
+    in the definition's array 0) and then [a; b; c], and the array is
+    unchanged.  The last line shows why this needs proof: [append] ONTO the
+    prologue's window writes the array in place and the second step would
+    read [a; x; c]. *)
+Definition dA (n : Z) : action := ACustom n (Some (100 + n)) None ROk.
+Definition demo_heap : heap := [ [dA 1; dA 2; dA 3]; [dA 4] ].
+Definition demo_hfam : hfamily :=
+  [ (0, [ (10, HMerge [Some (HStatic (Some (mkSl 0 0 1 3))); Some (HStatic (Some (mkSl 1 0 1 1)))]);
+          (11, HStatic (Some (mkSl 0 0 3 3))) ]) ].
+
+Example C09_demo_heap :
+  let c0 := mkCore None [] None in
+  wf_family (length demo_heap) demo_hfam = true /\ sized (resolve_family demo_heap demo_hfam) /\
+  match run_h grow_exact 3 demo_hfam (init_state 0 c0) demo_heap [] with
+  | Ok (st, h', log, d) =>
+     d = true /\ firstn 2 h' = demo_heap /\
+     map (fun e => e_actions (read_entry h' e)) log = [[dA 1; dA 4]; [dA 1; dA 2; dA 3]] /\
+     map (fun e => omap sl_arr (he_actions e)) log = [Some 3%nat; Some 0%nat] /\
+     c_measured (ms_core st) = [101; 104; 101; 102; 103]
+  | _ => False
+  end /\
+  (let '(h1, sl) := append_h grow_exact demo_heap (Some (mkSl 0 0 1 3)) [dA 4] in
+   read h1 (Some (mkSl 0 0 3 3)) = [dA 1; dA 4; dA 3] /\ omap sl_arr sl = Some 0%nat).
+Proof.
+  split; [reflexivity|]. split; [apply sized_b_sound; reflexivity|].
+  split; [vm_compute; repeat split|].
+  vm_compute. split; reflexivity.
+Qed.
